@@ -131,6 +131,10 @@ def _extract_nodes_and_run_space(
         pipeline = config.get("pipeline")
         if isinstance(pipeline, Mapping):
             nodes = pipeline.get("nodes", [])
+            if run_space is None:
+                # Same fallback as the YAML loader and ``semantiva run``: the
+                # block may also be written next to ``nodes``.
+                run_space = pipeline.get("run_space")
         else:
             nodes = config.get("nodes", [])
         if not isinstance(nodes, list):
